@@ -81,8 +81,18 @@ class ProbeMini(M.MiniSSH):
         self._frame1(payload, False, **kw)
         if self.inject_after and self.inject_after[0] == self.own_count - 1:
             pls, self.inject_after = self.inject_after[1], None
-            for p in pls:
-                self._frame1(p, True)
+            if payload and payload[0] == M.MSG_NEWKEYS:
+                self._behind_newkeys = pls          # what follows NEWKEYS must use the new keys: see _finish
+            else:
+                for p in pls:
+                    self._frame1(p, True)
+
+    def _finish(self, k_s, k, h):
+        self._behind_newkeys = None
+        M.MiniSSH._finish(self, k_s, k, h)
+        pls, self._behind_newkeys = self._behind_newkeys, None
+        for p in pls or ():
+            self._frame1(p, True)
 
     def _frame1(self, payload, is_probe, **kw):
         start, seq = len(self._out), self.send_seq
